@@ -341,6 +341,9 @@ class ContractMixin:
                         and s.value.func.id in self.DIRECTIVES:
                     self.directive(s.value, st)
                 elif isinstance(s, ast.Assign) and len(s.targets) == 1 and isinstance(s.targets[0], ast.Name):
+                    if _mentions_log(s.value):
+                        raise Unsupported("a let-binding is evaluated at function entry, where the ghost call log is empty: write the "
+                                          "log expression inside the clause (%s)" % s.targets[0].id, s)
                     frame[s.targets[0].id] = self.ev1(s.value, st)
                 elif isinstance(s, ast.Pass):
                     pass
